@@ -27,7 +27,14 @@ async def _batch(mpc, cases, evaluator, ctxarg, chunk, case_timeout=None):
                 failed = True
     if not failed or not case_timeout:
         # (a coroutine that died leaves _pc_level > 0 for ever: shutdown() would spin; skip it then)
-        await mpc.shutdown()
+        if case_timeout:
+            # a case may have failed at OTHER parties only (they skip shutdown): do not wait for them for ever
+            try:
+                await asyncio.wait_for(mpc.shutdown(), 20 * case_timeout)
+            except Exception:
+                pass
+        else:
+            await mpc.shutdown()
     return out
 
 
